@@ -232,16 +232,7 @@ def check_chomsky_recogniser(ctx, rep):
     'epsilon only for S' as atoms"""
     import ast as _ast
     from .astutil import u as _u
-    a = ctx.prog.func('cfg.Alternative.is_chomsky')
-    txt = ' '.join(_u(r.value) for r in _ast.walk(a.node) if isinstance(r, _ast.Return))
-    shapes = {'empty right-hand side': 'len(self.symbols) == 0',
-              'single terminal': 'len(self.symbols) == 1 and isinstance(self.symbols[0], Terminal)',
-              'two variables': 'len(self.symbols) == 2 and isinstance(self.symbols[0], Variable) and isinstance(self.symbols[1], Variable)'}
-    for what, atom in shapes.items():
-        if atom in txt:
-            rep.holds('R-CNF.shape', a, what, 'CNF shape "{}" is recognised'.format(what), nontrivial=False)
-        else:
-            rep.violates('R-CNF.shape', a, what, 'the CNF recogniser no longer contains the shape "{}" ({})'.format(what, atom))
+    cyk.check_alternative_recogniser(ctx, rep)
     g = ctx.prog.func('cfg.CFG.is_chomsky')
     txt = ' '.join(_u(r.value) for r in _ast.walk(g.node) if isinstance(r, _ast.Return))
     for what, atom in {'start variable not on a right-hand side': 'self.S not in rule.variables()', 'epsilon only for the start variable': 'not rule.is_epsilon() or rule.variable == self.S',
@@ -388,6 +379,7 @@ def check_C16(ctx, rep):
     iorules.check_label_layout(ctx, rep, 'pda')
     iorules.check_label_layout(ctx, rep, 'tm')
     iorules.check_regexp_io(ctx, rep)
+    iorules.check_paren_independence(ctx, rep)
     iorules.check_cfg_io(ctx, rep)
     if iorules.check_generated(ctx, rep) < 3:
         raise AnalysisError('fewer than 3 grammar / generated-parser pairs found')
